@@ -253,7 +253,8 @@ Proof.
       destruct (existsb (fun x => d_seq x =? d_seq (k_dir k)) (snaps s1) || failed && true);
         destruct m as [|k0|k0]; try destruct complete; cbn [fst]; auto.
   - (* cancel *)
-    destruct (find_sink s i); [|assumption]. split; cbn [fst upd snaps sinks]; [assumption | apply drop_sink_forall; assumption].
+    destruct (find_sink s i) as [k|]; [|assumption].
+    destruct (k_hdr k); split; cbn [fst upd snaps sinks]; try assumption; apply drop_sink_forall; assumption.
   - (* set full needed *) split; assumption.
   - (* reap *)
     destruct (reap_cases s Hi) as (R1 & R2 & R3 & R4 & R5). split.
@@ -395,7 +396,7 @@ Proof.
       rewrite E in Hs'. inversion Hs'; subst. apply loadable_complete. assumption.
     + right. left. eexists i, m, _. split; [reflexivity|]. split; [exact E|]. split; [|rewrite E; reflexivity].
       rewrite E in Hs'. inversion Hs'; subst. apply loadable_complete. assumption.
-  - left. cbn [step]. destruct (find_sink s i); reflexivity.
+  - left. cbn [step]. destruct (find_sink s i) as [k|]; [destruct (k_hdr k)|]; reflexivity.
   - left. reflexivity.
   - destruct (reap_cases s Hi) as (_ & _ & _ & _ & [E|(c & E & Hc & Hf)]); [left; exact E|].
     right. right. split; [reflexivity|]. exists c. split; [exact E|]. split; [apply loadable_complete; exact Hc | exact Hf].
@@ -446,7 +447,7 @@ Proof.
     pose proof (close_cases s i m k Ef) as C. cbv zeta in C.
     destruct C as [(_ & E & _)|[(n & _ & _ & E & _)|(n & Eh & E & [F|[F R]])]]; try congruence.
     exists i, m, k, n. repeat split; try assumption. eexists. split; [exact E | reflexivity].
-  - cbn [step] in Hc. destruct (find_sink s i); cbn in Hc; congruence.
+  - cbn [step] in Hc. destruct (find_sink s i) as [k|]; [destruct (k_hdr k)|]; cbn in Hc; congruence.
   - cbn in Hc. discriminate.
   - destruct (reap_cases s Hi) as (_ & _ & E & _). cbn [step] in Hc. congruence.
   - cbn in Hc. congruence.
@@ -606,8 +607,9 @@ Proof.
       * intros _. unfold hdr_ok in Hok'. rewrite Eh in Hok'. unfold is_full. cbn [set_content d_db]. exact Hok'.
   - (* cancel *)
     cbn [step]. destruct (find_sink s i) as [k|] eqn:Ef; [|repeat split; assumption].
-    destruct (single_sink s i k Hl Ef) as [E1 E2]. cbn [fst upd snaps sinks]. rewrite E2.
-    repeat split; [exact Hc | cbn [length]; lia | intros k' d []].
+    destruct (single_sink s i k Hl Ef) as [E1 E2].
+    destruct (k_hdr k); cbn [fst upd snaps sinks]; rewrite E2;
+      (repeat split; [exact Hc | cbn [length]; lia | intros k' d []]).
   - repeat split; assumption.
   - (* reap *)
     destruct (reap_cases s Hi) as (_ & Rk & _). cbn [step]. unfold chain_inv. rewrite Rk.
